@@ -179,7 +179,12 @@ Generate(prog, st, fuel) ==
   ELSE IF fuel = 0 THEN [st |-> st, sweeps |-> 12, converged |-> FALSE]
   ELSE Generate(prog, SweepFrom(prog, st, 1), fuel - 1)
 
-Init0(prog) == [fail |-> "", ms |-> <<NewMethod(RootSrc, RootTgt, TRUE, prog.rootErr, prog.rootCtx, <<>>, prog.rootCtx)>>]
+\* declB: a second declared method ConvB(source B) B2 ("plain") or ConvB(source B, ctx Ctx) B2 ("ctx") -- it must be used
+\* wherever B -> B2 occurs, and generation must fail where its context is not available
+DeclB(prog) == prog.declB
+Init0(prog) == [fail |-> "", ms |-> <<NewMethod(RootSrc, RootTgt, TRUE, prog.rootErr, prog.rootCtx, <<>>, prog.rootCtx)>>
+                                      \o (IF DeclB(prog) = "none" THEN <<>>
+                                          ELSE <<NewMethod(N("B"), N("B2"), TRUE, prog.rootErr, DeclB(prog) = "ctx", <<>>, DeclB(prog) = "ctx")>>)]
 Gen(prog) == Generate(prog, Init0(prog), 12)
 
 \* ---------------------------------------------------------------- invariants on the result (WellFormed, C01)
@@ -215,16 +220,19 @@ Outcome(g) == IF ~g.converged THEN "diverges" ELSE IF g.st.fail # "" THEN "fail"
 DirNames == {"p", "source", "target", "context", "c", "fmt"}
 AliasShadowed(prog, dir) == dir \in {"source", "c"} \/ (dir = "context" /\ prog.rootCtx)
 
-Progs == { [shape |-> [A |-> a, B |-> b], rootErr |-> re, extErr |-> xe, rootCtx |-> rc, extCtx |-> xc, extId |-> FALSE, wrap |-> "none"] :
+Progs == { [shape |-> [A |-> a, B |-> b], rootErr |-> re, extErr |-> xe, rootCtx |-> rc, extCtx |-> xc, extId |-> FALSE, wrap |-> "none", declB |-> "none"] :
              a \in Shapes("A"), b \in Shapes("B"), re \in BOOLEAN, xe \in BOOLEAN, rc \in BOOLEAN, xc \in BOOLEAN }
 \* second program set: maps, string -> string, the identity-pair extend function, wrapErrorsUsing
 AllKindsA == FieldKinds("A") \cup MoreKinds
 ShapesMore == {<<a>> : a \in AllKindsA} \cup {<<a, b>> : a \in AllKindsA, b \in AllKindsA}
-ProgsMore == { [shape |-> [A |-> a, B |-> b], rootErr |-> eb[1], extErr |-> eb[2], rootCtx |-> FALSE, extCtx |-> FALSE, extId |-> xi, wrap |-> w] :
+ProgsMore == { [shape |-> [A |-> a, B |-> b], rootErr |-> eb[1], extErr |-> eb[2], rootCtx |-> FALSE, extCtx |-> FALSE, extId |-> xi, wrap |-> w, declB |-> "none"] :
                  a \in {x \in ShapesMore : \E i \in DOMAIN x : x[i] \in MoreKinds}, b \in {<<"i2i">>, <<"i2s">>, <<"i2s", "ptrB">>, <<"s2s", "i2s">>},
                  eb \in {<<TRUE, TRUE>>, <<FALSE, FALSE>>, <<TRUE, FALSE>>}, xi \in BOOLEAN, w \in {"none", "using"} }
 \* programs in which B is reachable from A (otherwise B's shape is irrelevant): one representative shape for B
 Reaches(a) == \E i \in DOMAIN a : a[i] \in {"ptrB", "slcB", "valB"}
 Reaches2(a) == \E i \in DOMAIN a : a[i] \in {"ptrB", "slcB", "valB", "mapB"}
-ProgsR == {p \in Progs : Reaches(p.shape.A) \/ p.shape.B = <<"i2i">>} \cup {p \in ProgsMore : Reaches2(p.shape.A) \/ p.shape.B = <<"i2i">>}
+\* third program set: a second declared method for B -> B2, with and without a context parameter
+ProgsDecl == { [shape |-> [A |-> a, B |-> b], rootErr |-> FALSE, extErr |-> FALSE, rootCtx |-> rc, extCtx |-> FALSE, extId |-> FALSE, wrap |-> "none", declB |-> db] :
+                 a \in {x \in ShapesMore : Reaches2(x)}, b \in {<<"i2i">>, <<"i2i", "ptrB">>}, rc \in BOOLEAN, db \in {"plain", "ctx"} }
+ProgsR == ProgsDecl \cup {p \in Progs : Reaches(p.shape.A) \/ p.shape.B = <<"i2i">>} \cup {p \in ProgsMore : Reaches2(p.shape.A) \/ p.shape.B = <<"i2i">>}
 =============================================================================
